@@ -1,4 +1,5 @@
 import H2T.Lemmas.FitsBlock
+import H2T.Lemmas.ConserveTree
 import H2T.Props.C15
 import H2T.Props.C04
 
@@ -12,9 +13,16 @@ a word moves it whole; the hard-wrap scan splits a piece without losing or reord
 padding only *add* characters around a line; the strikeout filter only adds marks.  For a whole paragraph in normal
 flow the conservation statement is proved end to end (`paragraph_text_conserved`, a corollary of the C04 refinement):
 whatever the split into text nodes, inline elements and fragment markers, and whatever the width, the non-whitespace
-characters of the lines are exactly the word characters of the text, in order.  The document-level
-statement is decided by correspondence (`src` stream of model vs implementation) and by the search oracle
-against an independent walk of the oracle DOM. -/
+characters of the lines are exactly the word characters of the text, in order.  **Whole-run theorems** (new): the wrap layer conserves text in *every* white-space mode, with or without overflow and
+padding (`wrap_layer_conserves`: what a `WrappedBlock` holds — finished lines, current line, pending word — is what it
+held before plus exactly the non-whitespace, non-control characters of the added text, in order; `into_lines` emits
+exactly that); for every **table-free program whose block prefixes are whitespace** the non-whitespace characters of the
+rendered lines are exactly the ink of the program, in order (`rendering_conserves_ink`: wrapping, hard wrapping, tab
+expansion, blocks, nested sub-renderers, flushing and markers neither lose, duplicate, reorder nor invent a character);
+and for simple trees under the trivial decorator that ink is the text of the tree (`trivial_text_preserved`).  Tables,
+non-whitespace prefixes (which need a provenance bit to separate from document text) and footnotes are decided by
+correspondence (`src` stream of model vs implementation) and by the search oracle against an independent walk of the
+oracle DOM. -/
 
 namespace H2T.C03
 
@@ -96,6 +104,34 @@ theorem paragraph_text_conserved (w : Nat) (parts : List Part) (ls : List (List 
     (hpos : ∀ wd ∈ Spec.words (partsText parts), 0 < Spec.lwc wd) (h : C04.wrapParts w parts = .ok ls) :
     nonWs ls.flatten = wordChars (partsText parts) :=
   C04.wrap_conserves_text w parts ls hw hpos h
+
+/-- **the wrap layer conserves text, in every mode**: `add_text` in normal, `pre` or `pre-wrap` mode, with any tags, with or
+    without overflow and padding: the block afterwards holds what it held plus exactly the non-whitespace, non-control
+    characters of the text, in order; and `into_lines` emits exactly what the block holds -/
+theorem wrap_layer_conserves (b b' : WB) (m : WS) (mt wt : Tag) (cs : List Ch) (h : b.addText m mt wt cs = .ok b') :
+    b'.ink = b.ink ++ keep cs ∧ ∀ ls, b'.finish = .ok ls → ls.flatMap ink = b.ink ++ keep cs :=
+  ⟨addText_ink b b' m mt wt cs h, fun ls hl => by rw [finish_ink b' ls hl, addText_ink b b' m mt wt cs h]⟩
+
+/-- **whole renderings conserve ink** (table-free trees, whitespace block prefixes, footnotes off): the non-whitespace
+    characters of the returned lines are exactly the program's ink, in program (= document) order -/
+theorem rendering_conserves_ink (cfg : Cfg) (d : Deco) (w : Nat) (tree : RNode) (ls : List RLine) (hfn : cfg.footnotes = false)
+    (hd : SilentDeco d) (hnt : noTable tree = true) (h : renderTree cfg d w tree = .ok ls) :
+    ls.flatMap rink = (opsInk cfg d 0 (compile cfg d tree)).1 :=
+  renderTree_ink cfg d w tree ls hfn (compile_silent cfg d hd tree hnt) h
+
+/-- **document text is preserved exactly** under the trivial decorator, for simple trees: the non-whitespace characters of
+    the output are the non-whitespace characters of the tree's text nodes, in document order -/
+theorem trivial_text_preserved (cfg : Cfg) (w : Nat) (tree : RNode) (ls : List RLine) (hfn : cfg.footnotes = false)
+    (hs : simpleTree tree = true) (h : renderTree cfg Deco.trivial w tree = .ok ls) : ls.flatMap rink = plainText tree :=
+  H2T.trivial_text_preserved cfg w tree ls hfn hs h
+
+/-- non-vacuity of `trivial_text_preserved`: a quote holding a list, emphasis and a link, at width 5 (so that words are
+    hard-wrapped): the tree is simple, renders, and its ink is `alphabetagammadelta` -/
+example :
+    let tree : RNode := .box {} .quote [.box {} .ul [.box {} .li [.text {} (strCh "alpha "), .box {} .em [.text {} (strCh "beta")]],
+                                                      .box {} .li [.box {} (.link (strCh "u")) [.text {} (strCh "gamma delta")]]]]
+    simpleTree tree = true ∧ ((renderTree {} Deco.trivial 5 tree).toOption.map fun ls => (ls.flatMap rink).map (·.cp))
+      = some ((strCh "alphabetagammadelta").map (·.cp)) := by decide +kernel
 
 /-! non-vacuity: "ab cdefgh" at width 4: all eight letters come out, in order, over three lines -/
 example :
